@@ -1,6 +1,6 @@
 #!/usr/bin/env python3
 """Merge the evidence parts written by the harness binaries of one property into evidence/<id>.json."""
-import json, sys
+import json, os, sys
 pid, tier, parts = sys.argv[1], sys.argv[2], sys.argv[3:]
 if not parts:
     sys.exit("merge_evidence: no evidence parts for " + pid)
@@ -28,4 +28,4 @@ else:
            "wall_s": sum(d["wall_s"] for d in docs), "violations": sum(d.get("violations", 0) for d in docs)}
 if out.get("assumptions") is None:
     out["assumptions"] = []
-json.dump(out, open("/verif/evidence/%s.json" % pid, "w"), indent=1)
+json.dump(out, open(os.path.join(os.environ.get("VERIF_EVIDENCE_OUT") or "/verif/evidence", "%s.json" % pid), "w"), indent=1)
